@@ -411,20 +411,23 @@ class BaseOdeModel(object):
             list of string, each string is the name of the state
 
         """
-        if isinstance(state_list, (list, tuple)):
-            for s in state_list:
-                self._addStateSymbol(s)
-        elif isinstance(state_list, (str, ODEVariable)):
-            self._addStateSymbol(state_list)
-        else:
-            raise InputError("Expecting a list")
+        try:
+            if isinstance(state_list, (list, tuple)):
+                for s in state_list:
+                    self._addStateSymbol(s)
+            elif isinstance(state_list, (str, ODEVariable)):
+                self._addStateSymbol(state_list)
+            else:
+                raise InputError("Expecting a list")
+        finally:
+            # also when a later name of the list is rejected: the states
+            # accepted before it are part of the model from now on.
+            # states added after construction have the default limits
+            if hasattr(self, "_state_lims"):
+                n_missing = len(self._stateList) - len(self._state_lims)
+                self._state_lims = list(self._state_lims) + [(0, None)]*n_missing
 
-        # states added after construction have the default limits
-        if hasattr(self, "_state_lims"):
-            n_missing = len(self._stateList) - len(self._state_lims)
-            self._state_lims = list(self._state_lims) + [(0, None)]*n_missing
-
-        self._hasNewTransition.trip()
+            self._hasNewTransition.trip()
 
     @property
     def param_list(self):
